@@ -20,3 +20,6 @@ def run(ctx):
     ctx.floor("V9", 10)
     ctx.floor("V5", 13)
     ctx.floor("V6", 8)
+    from ..engines import dispatch as DP
+    DP.d2_static_overrides_are_named(ctx, ("Constructor",))
+    ctx.floor("D2", 4)
